@@ -732,7 +732,8 @@ def parse_iso(value):
             )
 
         if hasattr(value, "to_pydatetime"):
-            return value.to_pydatetime()
+            # whole seconds, like every other kind of input (a pandas Timestamp is a datetime)
+            return value.to_pydatetime().replace(microsecond=0)
 
         if input_type == datetime.datetime:
             return value.replace(microsecond=0)
